@@ -5,8 +5,42 @@ SPEC = {
                   'N2kGroupFunctionDefaultHandlers.cpp', 'NMEA2000.cpp'],
     'cxxflags': ['-fsanitize-recover=float-cast-overflow'],
     'lean_modules': ['N2k.Props.C15'], 'props_files': ['N2k/Props/C15.lean'],
-    'translators': ['layouts', 'published'],
+    'translators': ['published'],   # runs the layout translator itself, then copies the frozen table for the harness
     'case_start': ['set', 'pgnlist'],
-    'trusted_base': [], 'assumptions': [],
+    'trusted_base': [
+        "frozen specification lean/N2k/Spec/PublishedLayouts.lean: 31 hand-written tables (field name, bit offset, length, "
+        "signedness, resolution, library parameter) written from the public PGN definitions (canboat-style field lists, as "
+        "reproduced in the doc comments of N2kMessages.h / NMEA2000.h), NOT from the setter code; an error in the table is a "
+        "false alarm or a missed defect. Its C++ copy for the harness is generated from the same text on every run "
+        "(tools/translators/published.py)",
+        "setter layouts: regenerated from the C++ source on every run by the C05 translator tools/translators/layouts.py "
+        "(clang AST, per-bit symbolic evaluation) and validated on every run against the real setters' bytes (correspondence)",
+        "bits written inside conditionals (126993 interval, 129029 reference-station record) and PGN 126464 (loop) are outside "
+        "the layout language: covered by the harness' table-driven encoder only",
+        "scaled fields: the theorem pins offset, byte width, signedness and resolution of the Add<N>Byte[U]Double call; the "
+        "double->code conversion itself is property C06",
+        "signedness of integer fields is checked when the parameter fills its C type (int8_t/int16_t vs published signed); "
+        "enumerations, flags and status unions are compared as bit patterns",
+    ],
+    'assumptions': ["parameter values within the documented ranges (below 2^W: enumerators/bit patterns of the field, integers "
+                    "that fit the stored bits, scaled values between the minimum and the out-of-range code)",
+                    "bits that belong to no published field, or to a published field for which the library has no parameter, are "
+                    "not constrained", "x86-64 LP64 little endian, IEEE double"],
 }
-MANIFEST = {'text': 'tbd', 'design_ref': 'DESIGN.md section 4, C15', 'note': 'tbd'}
+MANIFEST = {
+    'text': "For 31 of the 32 listed PGNs a frozen hand-written table of the published layout is compared, by kernel-checked "
+            "`decide`, with the setter layout that a translator regenerates from the C++ source on every run: every published "
+            "field with a library parameter must be driven, bit by bit and little endian, by that parameter at the published "
+            "offset and length, scaled fields with the published byte width, signedness and resolution, integer fields with the "
+            "published signedness. A generic theorem (proved once) turns agreement into: for ALL parameter values the payload "
+            "bits [offset, offset+length) hold the parameter's code. The correspondence run ties the generated layouts to the "
+            "real setters' bytes; an independent table-driven encoder built from the published table checks the real bytes "
+            "directly (all enumerators, NA, boundaries, negatives, single bits, random), including PGN 126464 and the fields "
+            "written inside conditionals. A symmetric error (same wrong resolution or swapped fields in setter and parser) "
+            "passes C05 and fails here (confirmed with seeded changes).",
+    'design_ref': 'DESIGN.md section 4, C15',
+    'note': "Trusted: Lean kernel; the hand-written published table (each disagreement with the pinned tree was reviewed: two "
+            "remain, both open findings - 126993 interval unit, 129284 ETA date signedness); the layout translator (validated by "
+            "the differential run). Not in the theorems: 126464 (repeated field), 126993 interval and 129029 reference-station "
+            "record (conditionals) - oracle only.",
+}
